@@ -11,7 +11,7 @@ use std::{
     cell::RefCell,
     collections::BTreeSet,
     fs,
-    io::{self, BufWriter, Write},
+    io,
     path::Path,
     sync::Arc,
     time,
@@ -504,8 +504,11 @@ impl Writer {
         {
             let mut readers = self.readers.borrow_mut();
             let mut merge_pos = 0;
+            // The copies go straight to the file. A buffer in between could still hold a copy
+            // whose write failed and hand it to the file later, when it is dropped, although
+            // the merge was given up and nothing accounts for that copy.
             let mut merge_datafile_writer =
-                BufWriter::new(log::create(utils::datafile_name(path, merge_fileid))?);
+                log::create(utils::datafile_name(path, merge_fileid))?;
             let mut merge_hintfile_writer =
                 LogWriter::new(log::create(utils::hintfile_name(path, merge_fileid))?)?;
 
@@ -552,22 +555,20 @@ impl Writer {
                 merge_pos += nbytes;
                 if merge_pos > self.ctx.conf.max_file_size {
                     // the finished merge files must be durable before their sources are removed
-                    merge_datafile_writer.flush()?;
-                    merge_datafile_writer.get_ref().sync_all()?;
+                    merge_datafile_writer.sync_all()?;
                     merge_hintfile_writer.sync()?;
                     merge_fileid += 1;
                     self.next_fileid = merge_fileid + 1;
                     merge_pos = 0;
                     merge_datafile_writer =
-                        BufWriter::new(log::create(utils::datafile_name(path, merge_fileid))?);
+                        log::create(utils::datafile_name(path, merge_fileid))?;
                     merge_hintfile_writer =
                         LogWriter::new(log::create(utils::hintfile_name(path, merge_fileid))?)?;
                     debug!(merge_fileid, "new merge file");
                 }
             }
             // the merge files must be durable before their sources are removed
-            merge_datafile_writer.flush()?;
-            merge_datafile_writer.get_ref().sync_all()?;
+            merge_datafile_writer.sync_all()?;
             merge_hintfile_writer.sync()?;
         }
 
